@@ -4,6 +4,7 @@ import HappyModel.C17.Chain
 import HappyModel.C17.ML
 import HappyModel.C17.MLM
 import HappyModel.C17.MLMK
+import HappyModel.C17.MLT
 /-! Line-protocol driver for C17 (other side: `hv/props/c17.py`). -/
 namespace HappyModel.C17.Driver
 open HappyModel.Proto HappyModel.C17
@@ -187,6 +188,50 @@ def mlmRun (s : MLM.St) : List Act → List String → List String
         let acc := newR.foldl (fun acc r => s!"reply {r.op} {r.txt}" :: acc) acc
         mlmRun s' as (mlmState s' :: acc)
 
+/-! ### multi-leader on a star / line topology (same transcript format) -/
+
+def mltEcho (s : MLT.St) (a : Act) : String :=
+  match a with
+  | .cw op n k v => s!"cw {op} {n} {k} {v}"
+  | .cr op n k => s!"cr {op} {n} {k}"
+  | .rs pid =>
+    (match s.procs pid with
+     | some p => s!"r {pid} {p.seg}"
+     | none => s!"r {pid} ?")
+  | .dl mid =>
+    (match s.msgs mid with
+     | some m =>
+       (match m.kind with
+        | .repl => s!"d {mid} {m.dst} Replicate {m.key} {m.ver.val} -"
+        | .aereq => s!"d {mid} {m.dst} AntiEntropyRequest - - -"
+        | .aeresp => s!"d {mid} {m.dst} AntiEntropyResponse - - -")
+     | none => s!"d {mid} ?")
+  | .ae n p => s!"ae {n} {p}"
+  | .tick t => s!"t {t}"
+
+def mltState (s : MLT.St) : String :=
+  let stores := (List.range s.n).map fun i => showStore (s.store i) s.nk
+  let vers := (List.range s.n).map fun i =>
+    let xs := (List.range s.nk).filterMap fun k => (s.vers i k).map fun v => showVer k v s.n
+    if xs.isEmpty then "-" else ",".intercalate xs
+  "S " ++ " | ".intercalate stores ++ " ; V " ++ " | ".intercalate vers
+
+def mltRun (s : MLT.St) : List Act → List String → List String
+  | [], acc => (s!"Q {showBool (MLT.quiescentB s)}" :: acc).reverse
+  | a :: as, acc =>
+    let echo := mltEcho s a
+    let s' := MLT.step s a
+    match s'.err with
+    | some e => (s!"err {e}" :: echo :: acc).reverse
+    | none =>
+      match a with
+      | .tick _ => mltRun s' as (echo :: acc)
+      | _ =>
+        let newR := (s'.replies.take (s'.replies.length - s.replies.length)).reverse
+        let acc := echo :: acc
+        let acc := newR.foldl (fun acc r => s!"reply {r.op} {r.txt}" :: acc) acc
+        mltRun s' as (mltState s' :: acc)
+
 def parseActs (body : List String) : List Act := body.filterMap fun l => parseAct (toks l)
 
 def judgeOut (r : Option String) : List String :=
@@ -215,6 +260,15 @@ def handle (hdr : List String) (body : List String) : List String :=
   | ["judge-ml"] =>
     let (steps, q) := Spec.parseSteps body
     judgeOut (Spec.judgeML steps q)
+  | ["ml", _variant, n, nk, res, topo] =>
+    let nn := natD n
+    if topo == "mesh" then
+      (if res == "union" then mlmRun (MLM.init nn (natD nk) .union) (parseActs body) []
+       else if res == "max" then mlmRun (MLM.init nn (natD nk) .vmax) (parseActs body) []
+       else mlRun (ML.init nn (natD nk)) (parseActs body) [])
+    else
+      let adj := if topo == "star" then MLT.star nn else MLT.line nn
+      mltRun (MLT.init nn (natD nk) (if res == "max" then .vmax else .union) (res == "lww") adj) (parseActs body) []
   | ["ml-kcomplete", n, nk, res] =>
     -- the model's own "anti-entropy having run" on a schedule (cross-checked against the judge's reading)
     let r := MLM.krun (MLM.init (natD n) (natD nk) (if res == "max" then .vmax else .union)) MLM.GK.reset (parseActs body)
@@ -225,6 +279,9 @@ def handle (hdr : List String) (body : List String) : List String :=
   | ["judge-ml", n, merging] =>
     let (steps, q) := Spec.parseSteps body
     judgeOut (Spec.judgeMLn (natD n) (merging == "1") steps q)
+  | ["judge-ml", n, merging, mesh] =>
+    let (steps, q) := Spec.parseSteps body
+    judgeOut (Spec.judgeMLt (natD n) (merging == "1") (mesh == "1") steps q)
   | _ => ["bad-header"]
 
 end HappyModel.C17.Driver
